@@ -41,7 +41,7 @@ CHECKS = {
           'laminate): the internal-force entry is proved equal to the formal derivative dU/dc_A of the energy density U = w (ab/4) 1/2 eps^T F eps with the '
           'quadratic slope terms, the sum of the kL and kG entries to d2U/dc_A dc_B (hence symmetric and the exact Jacobian for every state and every rule), '
           'and the internal force vanishes for zero state sums; Panel.calc_kT / calc_fint pass the caller state, the laminate of the definition, offsets and '
-          'quadrature orders (assembly versions: C13).'),
+          'quadrature orders; PanelAssembly.calc_kT / calc_fint are the sums of the panels\' own terms at their ranges plus the connection matrix (times the state), 1..3 panels (1 fixed defect: calc_fint of assemblies raised TypeError).'),
     design_ref='DESIGN.md section 4 (C08)',
     note=KERNEL_NOTE + '; integrand-level: exactness of Gauss quadrature for the quartic integrand is the C10 contract; reduction to K0*c for small states follows from the polynomial identity, not separately stated',
     technique='contracts + symbolic execution (generic-iteration schema with accumulators); formal differentiation of the spec; exact normal form'),
